@@ -2609,6 +2609,18 @@ where
             });
         }
 
+        // Level 3 (completion-time vertex-link check). `validate()` runs it after the checks
+        // above have passed, so mirror that here: the report is empty exactly when
+        // `validate()` succeeds.
+        if violations.is_empty()
+            && let Err(e) = self.validate_at_completion()
+        {
+            violations.push(InvariantViolation {
+                kind: InvariantKind::Topology,
+                error: e.into(),
+            });
+        }
+
         if violations.is_empty() {
             Ok(())
         } else {
